@@ -305,6 +305,12 @@ Definition accept6 (s : sstate6) (o : op6) (r : out6) : sstate6 + N :=
       end
   | Release6 c => release_accept6 s c false rep sn
   | Decline6 c => release_accept6 s c true rep sn
+  | InfoReq _ =>
+      (* stateless: no value is handed out; the binding state must not move (with6 re-checks (b)) *)
+      match rep with
+      | R6Info => same6 s sn
+      | _ => inr 9
+      end
   | Advance6 t =>
       match rep with
       | R6None => with6 s (snow6 s + t) (sb6 s) (sdown6 s) (sdownp6 s) sn
